@@ -271,7 +271,7 @@ pub fn apply_operator(op: &str, toks: &[Tok], r: &mut Rng) -> Option<String> {
         "cdata-unclosed" => { let i = content_site(&t, r)?; t.insert(i, tok(TK::CData, "<![CDATA[ c")); for x in t.iter_mut().skip(i + 1) { if x.s.contains("]]>") { x.s = x.s.replace("]]>", "]] >"); } } }
         "cdata-outside-root" => { let at = if r.chance(1, 2) { re } else { ro }; t.insert(at, tok(TK::CData, "<![CDATA[x]]>")); }
         "attr-entity-lt" => { let i = find_kind(&t, TK::AttrValue, r)?; let q = t[i].s.chars().next().unwrap(); t[i].s = format!("{}&zlt;{}", q, q); return Some(with_decl(&t, "<!ENTITY zlt \"a&#60;b\">")); }
-        "entity-recursive" => { let i = content_site(&t, r)?; t.insert(i, tok(TK::EntRef, "&zr1;")); return Some(with_decl(&t, "<!ENTITY zr1 \"&zr2;\"><!ENTITY zr2 \"x&zr1;\">")); }
+        "entity-recursive" => { let i = content_site(&t, r)?; t.insert(i, tok(TK::EntRef, "&zr1;")); return Some(with_decl(&t, r.pick_s(&["<!ENTITY zr1 \"&zr2;\"><!ENTITY zr2 \"x&zr1;\">", "<!ENTITY zr1 \"&zr2;\"><!ENTITY zr2 \"&zr3;\"><!ENTITY zr3 \"&zr2;\">", "<!ENTITY zr1 \"a&zr2;\"><!ENTITY zr2 \"&zr2;\">", "<!ENTITY zr1 \"&zr1;\">"]))); }
         "entity-unparsed-ref" => { let i = content_site(&t, r)?; t.insert(i, tok(TK::EntRef, "&zun;")); return Some(with_decl(&t, "<!NOTATION zn SYSTEM \"n\"><!ENTITY zun SYSTEM \"u.bin\" NDATA zn>")); }
         "entity-external-attr" => { let i = find_kind(&t, TK::AttrValue, r)?; let q = t[i].s.chars().next().unwrap(); t[i].s = format!("{}&zex;{}", q, q); return Some(with_decl(&t, "<!ENTITY zex SYSTEM \"e.xml\">")); }
         "empty-document" => { return Some(r.pick_s(&["", " ", "\n", "<?xml version=\"1.0\"?>", "<!--c-->", "<!DOCTYPE a>"]).to_string()); }
@@ -531,6 +531,11 @@ pub fn family_input(fam: &str, n: usize) -> String {
         "mixed-names" => format!("<!DOCTYPE r [<!ELEMENT r (#PCDATA{})*>]><r/>", rep("|a", n)),
         "entity-chain" => { let mut s = String::from("<!DOCTYPE r [<!ENTITY e0 'x'>"); for i in 1..=n { s.push_str(&format!("<!ENTITY e{} '&e{};'>", i, i - 1)); } s.push_str(&format!("]><r a='&e{};'>&e{};</r>", n, n)); s }
         "entity-cycle" => { let mut s = String::from("<!DOCTYPE r ["); for i in 0..n.max(1) { s.push_str(&format!("<!ENTITY c{} '&c{};'>", i, (i + 1) % n.max(1))); } s.push_str("]><r a='&c0;'>&c0;</r>"); s }
+        "entity-rho" => { let k = n.max(2); let mut s = String::from("<!DOCTYPE r ["); for i in 0..k { s.push_str(&format!("<!ENTITY h{} '&h{};'>", i, if i + 1 < k { i + 1 } else { k / 2 })); } s.push_str("]><r>&h0;</r>"); s }
+        "entity-rho-attr" => { let k = n.max(2); let mut s = String::from("<!DOCTYPE r ["); for i in 0..k { s.push_str(&format!("<!ENTITY h{} 'x&h{};'>", i, if i + 1 < k { i + 1 } else { k - 1 })); } s.push_str("]><r a='&h0;'/>"); s }
+        "entity-hidden-cycle" => { let k = n.max(1); let mut s = String::from("<!DOCTYPE r ["); for i in 0..k { s.push_str(&format!("<!ENTITY g{} '&#38;g{};'>", i, (i + 1) % k)); } s.push_str("]><r a='&g0;'>&g0;</r>"); s }
+        "entity-escaped-chain" => { let mut s = String::from("<!DOCTYPE r [<!ENTITY d0 '&#38;#60;'>"); for i in 1..=n { s.push_str(&format!("<!ENTITY d{} '&#38;d{};'>", i, i - 1)); } s.push_str(&format!("]><r a='&d{};'>&d{};</r>", n, n)); s }
+        "attlist-default-entref" => { let mut s = String::from("<!DOCTYPE r [<!ENTITY e 'v'>"); for i in 0..n.max(1) { s.push_str(&format!("<!ATTLIST r a{} CDATA '&e;&lt;&#38;'>", i)); } s.push_str("]><r/>"); s }
         "entity-fanout" => { let mut s = String::from("<!DOCTYPE r [<!ENTITY f0 'x'>"); for i in 1..=n { s.push_str(&format!("<!ENTITY f{} '&f{};&f{};'>", i, i - 1, i - 1)); } s.push_str(&format!("]><r a='&f{};'/>", n)); s }
         "decls" => format!("<!DOCTYPE r [{}]><r/>", rep("<!ENTITY e 'v'><!NOTATION n SYSTEM 's'><!ATTLIST r a CDATA #IMPLIED>", n)),
         "lt-run" => rep("<", n),
@@ -543,7 +548,7 @@ pub fn family_input(fam: &str, n: usize) -> String {
 
 pub const FAMILIES: &[&str] = &["depth", "depth-attrs", "depth-unclosed", "width", "width-text", "attrs", "text-length", "attr-length", "name-length", "comment-length",
     "cdata-length", "pis", "charrefs", "charref-digits", "nsdecls", "nested-choice", "nested-seq", "nested-group-bad", "mixed-names", "entity-chain", "entity-cycle",
-    "entity-fanout", "decls", "lt-run", "amp-run", "open-comment", "pe"];
+    "entity-fanout", "entity-rho", "entity-rho-attr", "entity-hidden-cycle", "entity-escaped-chain", "attlist-default-entref", "decls", "lt-run", "amp-run", "open-comment", "pe"];
 
 fn family_max(fam: &str, thorough: bool) -> usize {
     let big = if thorough { 200_000 } else { 20_000 };
@@ -551,7 +556,7 @@ fn family_max(fam: &str, thorough: bool) -> usize {
         "depth" | "depth-attrs" | "depth-unclosed" => big,
         "nested-choice" | "nested-seq" | "nested-group-bad" => if thorough { 4096 } else { 512 },
         "entity-fanout" => if thorough { 64 } else { 32 },
-        "attrs" | "nsdecls" | "entity-chain" | "entity-cycle" | "decls" => if thorough { 4000 } else { 1000 },
+        "attrs" | "nsdecls" | "entity-chain" | "entity-cycle" | "entity-rho" | "entity-rho-attr" | "entity-hidden-cycle" | "entity-escaped-chain" | "attlist-default-entref" | "decls" => if thorough { 4000 } else { 1000 },
         "pe" => 1,
         _ => big,
     }
